@@ -85,7 +85,7 @@ fn video_ops(it: &VideoItem, cts: &[usize]) -> Option<Vec<Op>> {
 }
 
 pub fn check_c03(ctx: &Ctx) -> i32 {
-    let vmax = if ctx.thorough { 6 } else { 4 }; // steps => frames = steps + 1
+    let vmax = if ctx.thorough { 5 } else { 4 }; // steps => frames = steps + 1 (9 steps: 6561 sequences x 4^5 offset vectors at 5)
     let amax = if ctx.thorough { 5 } else { 3 };
     let starts = [0.0, 0.5, 36000.0];
     let mut items = vec![];
